@@ -39,7 +39,7 @@ func c14CheckOpen(enc []byte, localAS uint32, holdSec uint16, id uint32, caps []
 		verifAssert("representable-open-is-encoded", false)
 		return
 	}
-	c15HeaderOK("open", enc, openMessageType, 10+2+capsTotal)
+	c15HeaderOK("open", enc, verifMsgOpen, 10+2+capsTotal)
 	verifAssume(len(enc) == 19+12+capsTotal)
 	b := enc[19:]
 	verifAssert("version-4", b[0] == 4)
